@@ -153,6 +153,8 @@ def accepted_kinds(root: Sp, s: Sp) -> set:
         return {"bool"}
     if k == "none":
         return {"null"}
+    if k == "unsup":
+        return set()
     if k == "any":
         return {"null", "bool", "int", "float", "str", "list", "dict"}
     if k == "opt":
@@ -164,7 +166,7 @@ def accepted_kinds(root: Sp, s: Sp) -> set:
         return out
     if k in ("list", "seq", "set", "fset", "vtuple", "tuple"):
         return {"list"}
-    if k in ("map", "obj"):
+    if k in ("map", "obj", "disc"):
         return {"dict"}
     if k in ("lit", "enum"):
         return {jkind(v) for v in s.a}
